@@ -685,7 +685,8 @@ class Layout(object):
         @_numba_utils.njit
         def leftLaInvJIT(value):
             intermed = _numba_val_get_left_mt_matrix(value, k_list, l_list, m_list, mult_table_vals, n_dims)
-            if abs(np.linalg.det(intermed)) < _settings._eps:
+            # the determinant scales like c**n_dims, so test the conditioning instead
+            if np.linalg.cond(intermed) > 1 / _settings._eps:
                 raise ValueError("multivector has no left-inverse")
             sol = np.linalg.solve(intermed, identity.astype(intermed.dtype))
             return sol
